@@ -521,6 +521,8 @@ def c03(tier, rng):
             big_ = M.publish(b"t", bytes(0x80 + (i % 120) for i in range(L)), ps=[(11, 1)])
             stream = prec + big_ + M.pingresp()
             for k_ in (1, 2, 3, 4, 5):
+                if L > 2000000 and (pi_ > 1 or k_ < 3):
+                    continue
                 p_ = len(prec) + k_
                 add(stream, [(0, p_), (p_, len(stream))], ["hdrcut"], " ; pollstream 0 ; pollstream 0 ; pollstream 0")
                 if k_ in (3, 4) and len(prec) > 4:
